@@ -359,5 +359,11 @@ def run(ctx, tier):
     native_args_rule(ctx, I2)
     run_path_rules(ctx, __name__, 'sibling_paths', ['G20', 'G21', 'G90', 'G91', 'G0', 'G1', 'G2', 'G3'], unroll=1)
     ownership_rule(ctx)
+    # generated exit commands are expressed in the frame (unit, offsets) in force when they are generated: C03.R1 / R4
+    from . import rules_c03
+    ctx.rule('C03.R1', 'C03: exit composition - pending, exit script, G92 E, one X/Y travel, Z before XY iff rising / after iff falling', floor=6)
+    ctx.rule('C03.R4', 'C03: every word of the exit commands is the logical value of the tracked native position in the current '
+                       'frame ((current-offset-homeOffset)/unitMultiplier of the live axis), feed rate in file units', floor=6)
+    rules_c03.exit_rules(ctx, make_interp(ctx.model), {('fld', S_OID, 'excluding'): [True]}, 'exitExcludedRegion')
     ctx.assume('exact real arithmetic; translation of path and regions by a common vector is pure geometry and not decided')
     ctx.assume('firmware convention: native = logical*unit + G92 offset + M206 offset')
